@@ -281,6 +281,10 @@ CORPUS_SCRIPTS = [
     ["setoption name UCI_Chess960 value true", "isready", "position fen 1r2k2r/8/8/8/8/8/8/KR6 b Bhb - 0 1 moves e8g8", "print", "history", "quit"],
     ["isready", "position fen 4k3/8/8/8/8/8/8/R3K3 w - - 100 80", "go depth 3", "isready", "quit"],
     ["isready", "position fen 7n/8/8/8/8/8/K7/2k5 b - - 0 1 moves h8g6 a2a1 g6h8", "go depth 4", "history", "quit"],
+    # `fen.trim()` removes Unicode White_Space that `split_ascii_whitespace` leaves inside tokens (U+000B, U+0085, U+00A0, U+2003, U+3000)
+    ["isready", "position fen \x0brnbqkbnr/pppppppp/8/8/8/8/PPPPPPPP/RNBQKBNR w KQkq - 0 1 moves e2e4", "print", "history", "go depth 1", "quit"],
+    ["isready", "position fen \u00a0\u2003rnbqkbnr/pppppppp/8/8/8/8/PPPPPPPP/RNBQKBNR w KQkq - 0 1\u0085 moves e2e4 e7e5", "print", "history", "quit"],
+    ["isready", "position fen rnbqkbnr/pppppppp/8/8/8/8/PPPPPPPP/RNBQKBNR w KQkq - 0 1\u3000", "print", "go depth 1", "quit"],
     ["go depth 1"],
     ["print"],
     [],
